@@ -375,3 +375,42 @@ def forced_values(decls, cs, base, fixed, names):
         m2 = z3_solve(decls, cs, base, fixed, extra=differs)
         vals[k] = v if m2 is None else None
     return True, vals
+
+
+def build_session(decls, constraints, keys=None):
+    """Rebuild a real Solver from printed declarations / constraints (used by replays)."""
+    from cspuz import Solver
+    from cspuz.expr import BoolExpr, IntExpr, Op
+    from .core import parse_sx
+    s = Solver()
+    vs = []
+    for d in decls:
+        t = parse_sx(d) if isinstance(d, str) else d
+        if t == "b":
+            vs.append(s.bool_var())
+        else:
+            vs.append(s.int_var(int(t[1]), int(t[2])))
+    names = {o.name.lower(): o for o in Op}
+    int_ops = {"int_constant", "neg", "add", "sub", "if"}
+
+    def mk(t):
+        if isinstance(t, str):
+            if t == "T":
+                return True
+            if t == "F":
+                return False
+            if t == "N":
+                return None
+            if t[0] in "bi" and t[1:].isdigit():
+                return vs[int(t[1:])]
+            return int(t)
+        ops = [mk(x) for x in t[1:]]
+        op = names[t[0]]
+        return (IntExpr if t[0] in int_ops else BoolExpr)(op, ops)
+    for c in constraints:
+        s.constraints.append(mk(parse_sx(c)))
+    if keys:
+        for i, k in enumerate(keys):
+            if k:
+                s.add_answer_key(vs[i])
+    return s
